@@ -719,6 +719,83 @@ fn limit_model(written: usize, k: usize, tables: bool) -> (CClass, Choices) {
 	(class, Choices { pool_first: firsts, ..Choices::default() })
 }
 
+
+// ---------------------------------------------------------------------------------------------
+// sub-check 2c: the 65535-entry limit of the constant pool, enumerated.  The class `a` has a field that is also called
+// `a` (one Utf8 constant for both in the input), an annotation holding an array of n distinct ints and, as the last thing a
+// writer meets, a long.  n is chosen so that the input pool has 65531 ... 65535 slots (65535 is the largest count a class
+// file can state; the long then sits in the last two slots).  Renaming the class - not the field - makes the written pool
+// one Utf8 larger than the pool that was read: up to 65534 slots in the input the writer has to produce a valid file, at
+// 65535 the long no longer fits and the writer has to refuse (JVMS 4.4.5: the slot after a long must exist and is unusable).
+
+fn pool_limit(ctx: &mut Ctx) {
+	use crate::classfile::model::{Annotation, ElementValue};
+	use crate::jar::ByRef;
+	use crate::mapmodel::conv::to_quill;
+	use crate::mapmodel::{MClass, MapSet};
+	let model = |n: usize, long_last: bool| -> CClass {
+		let mut pairs = vec![("v".to_string(), ElementValue::Array((0..n).map(|k| ElementValue::Int(1000 + k as i32)).collect()))];
+		if long_last {
+			pairs.push(("w".to_string(), ElementValue::Long(0x0102_0304_0506_0708)));
+		} else {
+			pairs.insert(0, ("w".to_string(), ElementValue::Long(0x0102_0304_0506_0708)));
+		}
+		CClass { minor: 0, major: 52, access: 0x21, name: "a".into(), super_class: Some("java/lang/Object".into()), interfaces: vec![], fields: vec![CMember { access: 2, name: "a".into(), desc: "I".into(), attrs: vec![Attr::Annotations { visible: true, list: vec![Annotation { ty: "Lann/A;".into(), pairs: vec![] }] }] }], methods: vec![], attrs: vec![Attr::Annotations { visible: true, list: vec![Annotation { ty: "Lann/A;".into(), pairs }] }] }
+	};
+	// (the field carries an annotation too, so that every name a writer needs for the class's annotation attribute is in its
+	// pool before it gets there, whatever order it works in: the long is then the last constant it has to add)
+	// how many slots the rest of the class takes (measured, not assumed)
+	let Ok(probe) = encode(&model(10, true), &Choices::default()) else { return };
+	let overhead = probe.pool_len - 10;
+	let mut names = MapSet { ns: vec!["official".into(), "named".into()], classes: Default::default() };
+	names.classes.insert("a".into(), MClass { names: vec![Some("a".into()), Some("zz/Renamed".into())], ..Default::default() });
+	ctx.run_enum("pool_size_limit", |rec| {
+		for count_in in 65529usize..=65535 {
+			for long_last in [true, false] {
+				let mut obs = rec.obs();
+				let r = crate::engine::no_panic(|| -> PropResult {
+					let m = model(count_in - overhead, long_last);
+					let enc = encode(&m, &Choices::default()).map_err(|e| format!("harness: encoder failed: {e:?}"))?;
+					if enc.pool_len != count_in {
+						return Err(format!("harness: expected an input pool of {count_in} slots, the encoder made {}", enc.pool_len));
+					}
+					// written as it is: same pool, must come out valid
+					if read_write_check(&enc.bytes, &mut obs).map_err(|e| format!("input pool of {count_in} slots, written as read: {e}"))?.is_none() {
+						return Err(format!("the writer refused a class whose pool has {count_in} slots when read and needs no more when written"));
+					}
+					// renamed: one Utf8 more
+					let q = to_quill::<2, Ns>(&names, 0).map_err(|e| format!("harness: {e:#}"))?;
+					let remapper = q.remapper_b_first_to_second(quill::remapper::NoSuperClassProvider::new()).map_err(|e| format!("harness: {e:#}"))?;
+					let tree = duke::read_class(&mut std::io::Cursor::new(&enc.bytes)).map_err(|e| format!("duke::read_class rejected a well-formed class file: {e:#}"))?;
+					let renamed = dukebox::remap::remap_class(&ByRef(&remapper), dukebox::storage::VecClass(enc.bytes.clone())).map_err(|e| format!("remap_class failed: {e:#}"))?;
+					let _ = tree;
+					let expected = project(&renamed).map_err(|e| format!("harness: {e}"))?.canon();
+					match write_tree(&renamed) {
+						Ok(out) => {
+							check_written(&expected, &out, &mut obs).map_err(|e| format!("input pool of {count_in} slots, one more constant when written: {e}"))?;
+							if count_in + 1 > 65535 {
+								return Err(format!("harness: a pool of {} slots was written", count_in + 1));
+							}
+							obs.label(format!("written_pool:{}", if count_in + 1 == 65535 { "exactly_65535_slots" } else { "below_65535_slots" }));
+						}
+						Err(e) => {
+							if count_in + 1 <= 65535 {
+								return Err(format!("the writer refused a class whose written pool needs {} slots (the largest count is 65535): {e}", count_in + 1));
+							}
+							obs.label("refused:pool_would_need_65536_slots");
+						}
+					}
+					obs.label(if long_last { "long_is_the_last_constant_met" } else { "long_is_met_before_the_ints" });
+					obs.nontrivial_if(true);
+					Ok(())
+				})
+				.and_then(|x| x);
+				rec.case(|| serde_json::json!({"input_pool_slots": count_in, "long_last": long_last}), crate::engine::fnv64(format!("pool{count_in}/{long_last}").as_bytes()), obs, r);
+			}
+		}
+	});
+}
+
 fn code_limit(ctx: &mut Ctx) {
 	ctx.run_enum("code_size_limit", |rec| {
 		for written in 65524usize..=65548 {
@@ -861,6 +938,7 @@ pub fn run(ctx: &mut Ctx) {
 	ctx.run_sub("write_read_trees", ctx.tier.pick(24000, 1200000), || (class_stream(), choices(), prop_oneof![2 => Just(0u16), 1 => Just(0xffffu16), 1 => any::<u16>()], crate::classfile::gen::big_choice()).prop_map(|(stream, ch, share, big)| SmallCase { stream, ch, share, big }), small);
 	ctx.run_sub("branch_geometry", ctx.tier.pick(800, 40000), geo_strategy, geometry);
 	code_limit(ctx);
+	pool_limit(ctx);
 	ctx.run_sub(
 		"write_remapped_trees",
 		ctx.tier.pick(3000, 150000),
